@@ -135,7 +135,10 @@ LEVEL_TEXT = ("Machine-checked proof (Coq, all inputs, Closed under the global c
               "(which graphs _pre_check receives and what it answers, whether a GraphMatcher is built, with which argument order, which method "
               "decides, the cache key set after every query) on exhaustive small scopes, random pairs and query histories on every run.")
 LEVEL_NOTE = ("Trusted: Coq kernel, the model, the harness encoder, the VF2 contracts (monitored, networkx is not verified). "
-              "Theorems assume well-formed simple graphs and unmutated graph objects.")
+              "Theorems assume well-formed simple graphs and no in-place edit of an object that has cache entries (C07_safe_edits is the exact "
+              "boundary).  The clause 'a pre-filter never changes a result set' is proved for wl1_filter, use_filter and the fast invariant check; "
+              "for the opt-in estimate guard of SubgraphSearchEngine._quick_pre_filter it is REFUTED (C07_quick_pre_filter_refuted, known finding) and "
+              "proved below the guard (C07_quick_pre_filter_transparent_below_guard).")
 
 KEYS = {"hcount": 0, "element": 1, "charge": 2, "aromatic": 3, "order": 4, "atom_map": 5, "neighbors": 6, "typesGH": 7}
 
